@@ -1,5 +1,5 @@
 (* C06  Requests go only to eligible providers, within the consumer's fee cap.
-   Statements only; the proofs are in Proofs/StepSpecs_batch.v.
+   Statements only; the proofs are in Proofs/StepSpecs_batch.v and StepSpecs_batch_block.v.
    [new_one cfg s c] is abci.go newRequestBatchHandler for the context c; its input state s is
    the state after the expiry phase of the same EndBlocker (Model/EndBlock.v end_blocker,
    Proofs/InvAll.v fold_new_phase), so bindings disabled by a slash earlier in the same
@@ -11,7 +11,8 @@
      paused_ctx rc = rc with state Paused and the batch marked completed *)
 From Coq Require Import List ZArith Bool.
 From SVC Require Import Base.AMap Base.Res Base.Dec Model.Types Model.Pricing
-  Model.Handlers Model.EndBlock Model.Step Proofs.Inv Proofs.CtxOps Proofs.StepSpecs_batch.
+  Model.Handlers Model.EndBlock Model.Step Proofs.Inv Proofs.CtxOps Proofs.StepSpecs_batch
+  Proofs.StepSpecs_batch_block.
 Import ListNotations.
 Open Scope Z_scope.
 
@@ -118,3 +119,21 @@ Theorem C06_provider_in_list : forall cfg s c r q,
     /\ r_exp q = height s + c_timeout rc /\ rid_height r = height s /\ r_active q = true.
 Proof. exact StepSpecs_batch.C06_provider_in_list. Qed.
 Print Assumptions C06_provider_in_list.
+
+(* the same for a whole EndBlock: every request record that appears during an EndBlocker is the
+   k-th request of a batch of its context, for the k-th provider found eligible against the
+   context record and the bindings, prices, volumes and time of the state sx after the expiry
+   phase of that EndBlocker; its fee is within the cap of that record *)
+Theorem C06_end_block : forall cfg s dt r q,
+  wf_cfg cfg -> Inv cfg s -> height s < HEIGHT_BOUND ->
+  get r (reqs s) = None -> get r (reqs (end_block cfg s dt)) = Some q ->
+  let sx := fold_left (expire_one cfg) (due (expq s) (height s)) s in
+  let c := rid_ctx r in
+  exists rc k p price,
+    In (height s, c) (newq sx) /\ get c (ctxs sx) = Some rc
+    /\ nth_error (filter_providers sx rc (c_provs rc)) k = Some (p, price)
+    /\ r = (c, c_counter rc + 1, height s, Z.of_nat k)
+    /\ q = mkReq p (if c_super rc then 0 else price) (height s + c_timeout rc) true
+    /\ In p (c_provs rc) /\ eligible sx rc p = Some price /\ 0 <= r_fee q <= c_cap rc.
+Proof. exact StepSpecs_batch_block.C06_end_block. Qed.
+Print Assumptions C06_end_block.
